@@ -42,8 +42,24 @@ func (v *View) Print(n int) error {
 	}
 	end := begin + n
 
+	// There are not enough lines behind the cursor to fill the screen, so
+	// we show more lines before the cursor instead.
+	if l := v.Lines.Len(); end > l {
+		end = l
+		begin = end - n
+		if begin < 0 {
+			begin = 0
+		}
+	}
+
 	for i := begin; i < end; i++ {
 		fmt.Print(v.Format(i))
+	}
+
+	// We are asked to print exactly n lines, but there might be less lines
+	// to show.
+	for i := end - begin; i < n; i++ {
+		fmt.Print("\n")
 	}
 
 	return nil
